@@ -1,5 +1,7 @@
 """C09  Search limits are honoured (depth sequence, depth cap, searchmoves, termination)."""
 import time as _time
+import os
+import shutil
 import gen
 import posgen
 from searchlib import *
@@ -147,17 +149,39 @@ def run(ctx):
         for l in lists:
             uci_cases.append((f, l))
     import concurrent.futures
+    import struct
+    # three shapes of the same request: list last / a further limit after the list (the UCI text fixes no order) / a Polyglot book that
+    # knows the position and recommends a move OUTSIDE the list (the book is a configuration, searchmoves still binds)
+    scratch = os.path.join(BUILD, "c09_books")
+    os.makedirs(scratch, exist_ok=True)
+    rc_, keys, e_ = run_lines(model, ["pghash " + c[0] for c in uci_cases])
+    jobs = []
+    for i, ((f, l), k) in enumerate(zip(uci_cases, keys)):
+        jobs.append((f, l, "list last", ["position fen " + f, "go depth 2 searchmoves " + " ".join(l)]))
+        jobs.append((f, l, "limit after the list", ["position fen " + f, "go searchmoves " + " ".join(l) + " depth 2"]))
+        rc2_, lr2, e2_ = run_lines(model, ["legal " + f])
+        outside = [m for m in (lr2[0] or "0").split()[1:] if m not in l and len(m) == 4 and m not in ("e1g1", "e1c1", "e8g8", "e8c8")]
+        if outside and k and all(ch in "0123456789abcdefABCDEFx" for ch in k.strip()):
+            m = outside[0]
+            enc = ((ord(m[1]) - 49) * 8 + (ord(m[0]) - 97)) * 64 + (ord(m[3]) - 49) * 8 + (ord(m[2]) - 97)
+            path = os.path.join(scratch, "b%d.bin" % i)
+            with open(path, "wb") as fh:
+                fh.write(struct.pack(">QHHI", int(k.strip(), 16), enc, 100, 0))
+            jobs.append((f, l, "book recommends %s" % m, ["setoption name Polyglot Sample value best", "setoption name Polyglot Book value " + path,
+                                                           "position fen " + f, "go depth 2 searchmoves " + " ".join(l)]))
     with concurrent.futures.ThreadPoolExecutor(max_workers=NPROC) as ex:
-        ures = list(ex.map(lambda c: run_script(exe, ["position fen " + c[0], "go depth 2 searchmoves " + " ".join(c[1])], go_timeout=60), uci_cases))
-    for (f, l), r in zip(uci_cases, ures):
+        ures = list(ex.map(lambda j: run_script(exe, j[3], go_timeout=60), jobs))
+    shutil.rmtree(scratch, ignore_errors=True)
+    for (f, l, shape, script), r in zip(jobs, ures):
         ngo += 1
         b = r["bestmoves"][0] if r["bestmoves"] else None
         if b not in l:
             nviol += 1
             if nviol <= 6:
-                ctx.violation("UCI: 'go depth 2 searchmoves %s' on '%s' answered %s, which is not in the list" % (" ".join(l), f, b),
-                              {"session": ["position fen " + f, "go depth 2 searchmoves " + " ".join(l)], "log": r["log"][-8:]}, key="c09:uci:%s:%s" % (f, " ".join(l)))
-    ctx.notes["uci_level_searchmoves_sessions"] = len(uci_cases)
+                what = ("the engine died (rc=%s): %s" % (r["rc"], r["stderr"][-200:].strip())) if b is None else ("answered %s, which is not in the list" % b)
+                ctx.violation("UCI [%s]: '%s' on '%s': %s" % (shape, script[-1], f, what),
+                              {"session": script, "log": r["log"][-8:], "rc": r["rc"], "stderr": r["stderr"][-1000:]}, key="c09:uci:%s:%s:%s" % (shape, f, " ".join(l)))
+    ctx.notes["uci_level_searchmoves_sessions"] = len(jobs)
     ctx.cov["evaluations"] = ngo
     ctx.cov["distinct_nontrivial"] = len(set(drive_cases))
     ctx.cov["traces_validated_against_impl"] = nconf
